@@ -54,8 +54,12 @@ def generated_texts():
         lambda t: (b"\xef\xbb\xbf" if t[2] else b"") + model.emit_text(t[0], random.Random(t[1])))
 
 
+# texts that end in the middle of a token (a record cut at the buffer end): the parser must stop AT the end of its buffer
+CUT_TEXTS = [b"tru", b"nul", b"fals", b"[1,nul", b'{"a":fals', b"[tru", b"[1.5,tr", b'["abc', b'["a\\', b'["\\u00', b"[12", b"-", b"[1e", b'{"a"', b"[1,", b"\xef\xbb"]
+
+
 def thread_program():
-    text = st.one_of(st.sampled_from(DOCS), st.sampled_from(DOCS), generated_texts())
+    text = st.one_of(st.sampled_from(DOCS), st.sampled_from(DOCS), generated_texts(), st.sampled_from(CUT_TEXTS))
     op = st.one_of(
         st.tuples(st.just("P"), st.integers(0, 7), st.integers(0, 3), st.integers(0, 1), st.just(0), text),
         st.tuples(st.just("P"), st.integers(0, 7), st.integers(0, 3), st.integers(0, 1), st.just(0), text),
@@ -146,7 +150,7 @@ class C20(Prop):
     ASSUMPTIONS = ["the harness does not own the scheduler: race detection is happens-before based (both accesses must be executed, not interleaved), "
                    "order-dependent but race-free defects are visible only under the schedules the OS produces",
                    "only instrumented code is observed (libc internals are not)"]
-    REQUIRED_CLASSES = ["nontrivial", "threads>=4", "utils_ops", "generated_text", "interleaved_schedules", "custom_hooks", "allocation_failure_in_thread"]
+    REQUIRED_CLASSES = ["nontrivial", "threads>=4", "utils_ops", "generated_text", "interleaved_schedules", "custom_hooks", "allocation_failure_in_thread", "adjacent_text_buffers"]
 
     def budget(self, tier):
         return {"workers": 14, "examples": 45 if tier == "quick" else 1200}
@@ -159,6 +163,8 @@ class C20(Prop):
                                       "hooks": st.booleans(),
                                       # refuse requests inside cJSON_Utils calls as well (no verdict if a program does not survive that alone)
                                       "failutils": gens.chance(3),
+                                      # the threads' text buffers are adjacent slices of one block (each thread touches its own slice only)
+                                      "slab": gens.chance(2),
                                       "failat": st.lists(st.one_of(st.just(0), st.integers(1, 40), st.integers(1, 400)), min_size=6, max_size=6)})
 
     def run_case(self, lib, case, stats):
@@ -168,6 +174,9 @@ class C20(Prop):
             raise RuntimeError("VERIF_TSAN_DRIVER not set")
         path = os.path.join(bdir, "tsan_case.%d.txt" % os.getpid())
         lines = ["threads %d" % len(case["threads"]), "rounds 3"] + ["schedule %d" % x for x in case.get("schedules", [])]
+        if case.get("slab"):
+            lines.append("slab 1")
+            stats.cls("adjacent_text_buffers")
         if case.get("hooks"):
             lines.append("hooks 1")
             stats.cls("custom_hooks")
